@@ -39,7 +39,9 @@ def _observe(case):
     if case.get("kind") == "same_gen":
         o = case["other"]
         a, b = common.expand_many([(case.get("mode", "attr"), case.get("attr", ""), case["item"]), (o["mode"], o["attr"], o["item"])])
-        gen = lambda r, mode: [common.norm(it.get("text", it.get("msg", ""))) for it in r.get("items", [])[(1 if mode == "attr" else 0):]]
+        # `only_dumps`: compile errors other than dump messages (the error of a neighbouring trait that cannot be generated) are not part of the comparison
+        keep = lambda it: not (case.get("only_dumps") and it.get("kind") == "compile_error" and not it.get("msg", "").lstrip().startswith("dump"))
+        gen = lambda r, mode: [common.norm(it.get("text", it.get("msg", ""))) for it in r.get("items", [])[(1 if mode == "attr" else 0):] if keep(it)]
         return {"gen_a": gen(a, case.get("mode", "attr")), "gen_b": gen(b, o["mode"])}
     res = common.expand_many([(case.get("mode", "attr"), case.get("attr", ""), case["item"])])[0]
     errs = common.compile_errors(res)
